@@ -39,7 +39,8 @@ struct Alt { std::string name; bool needK = false; };     // name "*" = any elem
 struct Pat { bool present = false; std::vector<Alt> alts; std::string text; };
 Pat parsePat(const std::string& s) {
     Pat p; if (s.empty()) return p; p.present = true; p.text = s; std::stringstream ss(s); std::string a;
-    while (std::getline(ss, a, '|')) { Alt x; size_t b = a.find("[@k]"); if (b != std::string::npos) { x.needK = true; a = a.substr(0, b); } if (a.compare(0, 3, "p1:") == 0) a = std::string("{") + NS1 + "}" + a.substr(3); else if (a.compare(0, 3, "p2:") == 0) a = std::string("{") + NS2 + "}" + a.substr(3);   // the stylesheet binds p1 and p2 like the document root does
+    while (std::getline(ss, a, '|')) { Alt x; { size_t q = a.find("[position()"); if (q != std::string::npos) { size_t e = a.find(']', q); a.erase(q, e == std::string::npos ? std::string::npos : e - q + 1); } }      // [position() > 0] holds for every node: the pattern evaluates position() in a context list of its own
+        size_t b = a.find("[@k]"); if (b != std::string::npos) { x.needK = true; a = a.substr(0, b); } if (a.compare(0, 3, "p1:") == 0) a = std::string("{") + NS1 + "}" + a.substr(3); else if (a.compare(0, 3, "p2:") == 0) a = std::string("{") + NS2 + "}" + a.substr(3);   // the stylesheet binds p1 and p2 like the document root does
         x.name = a; p.alts.push_back(x); }
     return p;
 }
@@ -129,6 +130,7 @@ double valueOf(const Tree& t, int c, const std::string& e) {
     if (e == "count(preceding::*) div 2") return prec / 2.0; if (e == "(count(preceding::*) + count(ancestor::*)) div 4") return (prec + anc) / 4.0;
     if (e == "count(*) + 0.5") return kids + 0.5; if (e == "count(preceding-sibling::*) * 1.5 + 1") return ps * 1.5 + 1;
     if (e == "count(preceding::*) * 97 + 650") return prec * 97.0 + 650; if (e == "(count(preceding::*) + 1) * 676") return (prec + 1) * 676.0; if (e == "count(preceding::*) * 13 + 1900") return prec * 13.0 + 1900;
+    if (e == "position()") return c + 1;      // the instruction sits in xsl:for-each select="//*": in the reference history (document order, unsorted) the position is the index
     if (e.compare(0, 15, "xalan:evaluate(") == 0) return prec + 1; if (e.compare(0, 22, "number(xalan:evaluate(") == 0) return prec + 2 + kids;      // a string made at run time, converted to a number
     if (e == "count(preceding::*) * 2 + 4503599627370497") return prec * 2.0 + 4503599627370497.0;      // odd integers above 2^52: exact in a double, and round() must leave them alone
     if (e == "(count(preceding::*) + 1) * 98765432101") return (prec + 1) * 98765432101.0; if (e == "count(preceding::*) * 1234567 + 123456789012") return prec * 1234567.0 + 123456789012.0; if (e == "(count(preceding::*) + 1) * 987654321") return (prec + 1) * 987654321.0;
@@ -189,11 +191,11 @@ struct C17 : public Driver {
         static const std::vector<std::string> levels = { "single", "multiple", "any" }; static const std::vector<std::string> toks = { "1", "01", "a", "A", "i", "I" };
         for (int i = 0; i < ns; ++i) {
             Json s = Json::object(); s["level"] = g.pick(levels);
-            unsigned c = (unsigned)g.below(6); std::string cnt;
-            if (c == 0 || (dc.manyNames && c < 3)) cnt = ""; else if (c == 1) cnt = name(); else if (c == 2) cnt = "*"; else if (c == 3) cnt = name() + "|" + name(); else if (c == 4) cnt = name() + "[@k]"; else cnt = "*[@k]";
+            unsigned c = (unsigned)g.below(7); std::string cnt;
+            if (c == 0 || (dc.manyNames && c < 3)) cnt = ""; else if (c == 1) cnt = name(); else if (c == 2) cnt = "*"; else if (c == 3) cnt = name() + "|" + name(); else if (c == 4) cnt = name() + "[@k]"; else if (c == 5) cnt = "*[@k]"; else cnt = (g.chance(1, 2) ? std::string("*") : name()) + "[position() &gt; 0]";
             s["count"] = cnt; s["from"] = g.chance(1, 3) ? name() : std::string(); s["token"] = g.pick(toks);
             // a fifth of the sets number by value expression instead (the rounding of xsl:number value=)
-            if (g.chance(1, 5)) { static const std::vector<std::string> vals = { "count(preceding::*) div 2", "(count(preceding::*) + count(ancestor::*)) div 4", "count(*) + 0.5", "count(preceding-sibling::*) * 1.5 + 1", "count(preceding::*) + 1", "count(preceding::*) * 97 + 650", "(count(preceding::*) + 1) * 676", "count(preceding::*) * 13 + 1900", "xalan:evaluate(concat(&quot;'&quot;, count(preceding::*) + 1, &quot;'&quot;))", "number(xalan:evaluate(concat(&quot;'&quot;, count(preceding::*) + 2, &quot;'&quot;))) + count(*)" }; s["value"] = g.pick(vals); s["from"] = ""; s["count"] = ""; }
+            if (g.chance(1, 5)) { static const std::vector<std::string> vals = { "count(preceding::*) div 2", "(count(preceding::*) + count(ancestor::*)) div 4", "count(*) + 0.5", "count(preceding-sibling::*) * 1.5 + 1", "count(preceding::*) + 1", "count(preceding::*) * 97 + 650", "(count(preceding::*) + 1) * 676", "count(preceding::*) * 13 + 1900", "position()", "position()", "xalan:evaluate(concat(&quot;'&quot;, count(preceding::*) + 1, &quot;'&quot;))", "number(xalan:evaluate(concat(&quot;'&quot;, count(preceding::*) + 2, &quot;'&quot;))) + count(*)" }; s["value"] = g.pick(vals); s["from"] = ""; s["count"] = ""; }
             else if (g.chance(1, 5)) { s["attr"] = true; if (g.chance(1, 3)) s["count"] = "@k|*"; }       // number the attribute k of every element that has one; a third with a pattern that matches it too
             else if (g.chance(1, 10)) { s["varcount"] = true; s["count"] = "*[@k]"; s["token"] = "1"; }      // count pattern with a variable reference; the oracle knows its two values
             else if (g.chance(1, 8)) { static const std::vector<std::string> big = { "count(preceding::*) * 2 + 4503599627370497", "(count(preceding::*) + 1) * 98765432101", "count(preceding::*) * 1234567 + 123456789012", "(count(preceding::*) + 1) * 987654321" }; static const std::vector<std::string> seps = { ",", ".", "'", " " };
@@ -304,8 +306,8 @@ struct C17 : public Driver {
                 if (positive && (tok == "i" || tok == "I")) { std::vector<int> pl; if (decodeList(got, "1", pl)) for (int v : pl) if (v > 3999) { positive = false; res.count("oracle_open:roman-above-3999"); break; } }
                 if (ft != values[0].end() && (positive || got.empty())) { std::vector<int> dec, plain; bool okp = decodeList(got, "1", plain);
                     if (!decodeList(ft->second, tok, dec) || (okp && dec != plain)) res.violate("format-roundtrip", tok, "node " + id + ": format='" + tok + "' gives [" + ft->second + "] for the number list [" + got + "]"); else res.count("format_decoded"); }
-                // history independence
-                for (size_t h = 1; h < values.size(); ++h) {
+                // history independence (position() is, by definition, a function of the visiting order)
+                for (size_t h = 1; h < values.size() && S.str("value") != "position()"; ++h) {
                     auto jt = values[h].find(ks); if (values[h].empty()) continue;
                     if (jt == values[h].end() || jt->second != got) { res.violate("history-dependent", shape + "|" + hist.a[h].str("clock"), "node " + id + ": [" + got + "] when numbered in document order with an advancing clock, [" + (jt == values[h].end() ? std::string("<missing>") : jt->second) + "] in order '" + hist.a[h].str("order") + "' with clock '" + hist.a[h].str("clock") + "' (level=" + level + " count='" + S.str("count") + "' from='" + S.str("from") + "')"); break; }
                 }
